@@ -925,6 +925,25 @@ func ruleChecksum(id string) func(*Checker) {
 			c.anchorMissing(id, "Bundle.manifestChecksum")
 			return
 		}
+		// what is handed out as the checksum is built from that field
+		if cv := p.Fn(bundlePkg, "Bundle.ChecksumV1"); cv != nil {
+			for i, r := range successReturns(cv) {
+				fromField := false
+				for w := range p.backSlice(r.Results[0], 0) {
+					switch x := w.(type) {
+					case *ssa.FieldAddr:
+						if fieldOf(x) == fv {
+							fromField = true
+						}
+					case *ssa.Field:
+						if fieldOf(x) == fv {
+							fromField = true
+						}
+					}
+				}
+				c.check(fromField, id, p.FuncName(cv), fmt.Sprintf("return %d is built from the stored checksum", i), p.Pos(r.Pos()), "depends on Bundle.manifestChecksum", "ChecksumV1 answers with something that does not derive from the stored manifest checksum (another same-typed field, such as the directory): identical bundles in different places get different checksums")
+			}
+		}
 		n := 0
 		for _, fn := range p.Funcs {
 			for _, st := range storesToField(fn, fv) {
